@@ -257,7 +257,10 @@ func (s *Server) setReplyStream(w http.ResponseWriter, direct bool) (string, err
 func (s *Server) Release() error {
 	s.mutex.Lock()
 	defer s.mutex.Unlock()
+	return s.releaseUnsafe()
+}
 
+func (s *Server) releaseUnsafe() error {
 	if s.invokeCtx == nil {
 		return ErrNotReserved
 	}
@@ -492,10 +495,31 @@ func drainChannel(c chan DoneWithState) {
 func (s *Server) Clear() {
 	// we do not drain InitDoneChannel, because Init is only done once during rapid lifetime
 
-	drainChannel(s.InvokeDoneChan)
 	// an init error cached for the execution environment that has just been reset must not be replayed to invocations of the next one
 	s.setCachedInitErrorResponse(nil)
-	s.Release()
+	// releasing and draining form one step with respect to sendInvokeDone: an outcome that is handed over before the
+	// release is drained here, one that comes later finds its reservation gone
+	s.mutex.Lock()
+	s.releaseUnsafe()
+	drainChannel(s.InvokeDoneChan)
+	s.mutex.Unlock()
+}
+
+// sendInvokeDone hands the outcome of an invocation to the caller waiting in AwaitRelease - unless a reset has
+// released the reservation of that invocation meanwhile: nobody waits for the outcome then, and left in
+// InvokeDoneChan it would be taken for the outcome of the next invocation
+func (s *Server) sendInvokeDone(invokeID string, done DoneWithState) {
+	s.mutex.Lock()
+	defer s.mutex.Unlock()
+	if s.invokeCtx == nil || s.invokeCtx.Token.InvokeID != invokeID {
+		log.Warnf("Dropping outcome of invoke %s: its reservation is gone", invokeID)
+		return
+	}
+	select {
+	case s.InvokeDoneChan <- done:
+	default:
+		log.Warnf("Dropping outcome of invoke %s: an earlier outcome has not been consumed", invokeID)
+	}
 }
 
 func (s *Server) SendRuntimeReady() error {
@@ -587,20 +611,14 @@ func (s *Server) FastInvoke(w http.ResponseWriter, i *interop.Invoke, direct boo
 				s.trySendDefaultErrorResponse(invokeID, invokeFailure.DefaultErrorResponse)
 			}
 			doneFail := doneFailFromInvokeFailure(invokeFailure)
-			s.InvokeDoneChan <- DoneWithState{
+			s.sendInvokeDone(invokeID, DoneWithState{
 				Done:  &interop.Done{ErrorType: doneFail.ErrorType, Meta: doneFail.Meta},
 				State: s.InternalStateGetter(),
-			}
+			})
 		} else {
 			vhook.At("fastinvoke.success")
-			if s.GetCurrentInvokeID() != invokeID {
-				// as above: a timeout reset released the reservation while the success was on its way;
-				// left in InvokeDoneChan it would be taken for the outcome of the next invocation
-				log.Warnf("Dropping outcome of invoke %s: its reservation is gone", invokeID)
-				return
-			}
 			done := doneFromInvokeSuccess(invokeSuccess)
-			s.InvokeDoneChan <- DoneWithState{Done: done, State: s.InternalStateGetter()}
+			s.sendInvokeDone(invokeID, DoneWithState{Done: done, State: s.InternalStateGetter()})
 		}
 	}()
 
